@@ -78,6 +78,9 @@ package dbft
 //@ ghost gClock Int
 //@ ghost gPool RefSeq Transaction
 //@ ghost gVerified Ref
+// the block / pre-block object whose transactions were last set
+//@ ghost gBlockTxSet Ref
+//@ ghost gPreBlockTxSet Ref
 // C03: what this node has already said at this height / in this view.
 //@ ghost gCommit Ref ConsensusPayload
 //@ ghost gPreCommit Ref ConsensusPayload
@@ -135,7 +138,9 @@ package dbft
 //@ pred slot() = forall(i, 0, NN(), implies(self.ChangeViewPayloads[i] != nil, self.ChangeViewPayloads[i].Type() == ChangeViewType))
 //@      && forall(i, 0, NN(), implies(self.CommitPayloads[i] != nil, self.CommitPayloads[i].Type() == CommitType && self.CommitPayloads[i].ValidatorIndex() == i))
 //@      && forall(i, 0, NN(), implies(self.PreCommitPayloads[i] != nil, self.PreCommitPayloads[i].Type() == PreCommitType && self.PreCommitPayloads[i].ValidatorIndex() == i))
-//@      && forall(i, 0, NN(), implies(self.PreparationPayloads[i] != nil, self.PreparationPayloads[i].ValidatorIndex() == i))
+//@      && forall(i, 0, NN(), implies(self.PreparationPayloads[i] != nil, self.PreparationPayloads[i].ValidatorIndex() == i
+//@             && (self.PreparationPayloads[i].Type() == PrepareRequestType || self.PreparationPayloads[i].Type() == PrepareResponseType)))
+//@      && forall(i, 0, NN(), implies(self.LastChangeViewPayloads[i] != nil, self.LastChangeViewPayloads[i].Type() == ChangeViewType))
 //@      && forall(i, 0, NN(), implies(self.PreparationPayloads[i] != nil, (self.PreparationPayloads[i].Type() == PrepareRequestType) == (i == self.PrimaryIndex)))
 //@      && implies(!amev(), forall(i, 0, NN(), self.PreCommitPayloads[i] == nil))
 //@      && implies(self.header != nil, self.PreparationPayloads[self.PrimaryIndex] != nil && (!amev() || self.preBlockProcessed))
@@ -160,11 +165,11 @@ package dbft
 //@   modifies nothing
 //@ func (*Context).F
 //@   requires nvalid()
-//@   ensures [C06,C01] result == specF(len(c.Validators))
+//@   ensures [C06,C01,C02,C04] result == specF(len(c.Validators))
 //@   modifies nothing
 //@ func (*Context).M
 //@   requires nvalid()
-//@   ensures [C06,C01] result == specM(len(c.Validators))
+//@   ensures [C06,C01,C02,C04] result == specM(len(c.Validators))
 //@   modifies nothing
 //@ func (*Context).GetPrimaryIndex
 //@   requires nvalid()
@@ -292,6 +297,8 @@ package dbft
 //@ pred verc() = implies(self.header != nil, forall(i, 0, NN(), implies(curC(i), verC(i))))
 //@        && implies(canMakeHeader() && self.header == nil, forall(i, 0, NN(), !curC(i)))
 //@ pred verp() = implies(self.preBlock != nil, forall(i, 0, NN(), implies(curP(i), verP(i))))
+// a cached block / pre-block object is one whose transactions were set (it was built by CreateBlock / CreatePreBlock)
+//@ pred complete() = implies(self.block != nil, gBlockTxSet == self.block) && implies(self.preBlock != nil, gPreBlockTxSet == self.preBlock)
 //@ pred tip() = self.BlockIndex == gTipHeight + 1 && self.PrevHash == gTipHash
 //@ pred cleanProposal() = isnil(self.TransactionHashes) && len(self.TransactionHashes) == 0 && len(self.Transactions) == 0 && forallOf(Transaction, t, !has(self.Transactions, t.Hash()))
 //@        && len(self.MissingTransactions) == 0 && self.header == nil && self.block == nil && self.preHeader == nil && self.preBlock == nil
@@ -319,11 +326,12 @@ package dbft
 //@ bundle INV
 //@   ensures [C03] @said said()
 //@   ensures [C11] @wf wf()
-//@   ensures [C11] @slot slot()
+//@   ensures [C11,C02,C04] @slot slot()
 //@   ensures [C04] @prep prep()
 //@   ensures [C02,C15] @prop prop()
 //@   ensures [C02,C01] @verc verc()
 //@   ensures [C02] @tip tip()
+//@   ensures [C02] @complete complete()
 
 //@ bundle U
 //@   requires @wf wf() && slot()
@@ -334,6 +342,7 @@ package dbft
 //@   requires [C02,C15] @prop prop()
 //@   requires [C02,C01] @verc verc()
 //@   requires [C02] @tip tip()
+//@   requires [C02] @complete complete()
 //@   use INV
 //@   ensures  @hist unchanged(self.Validators) && self.BlockIndex == old(self.BlockIndex) && self.ViewNumber >= old(self.ViewNumber) && self.MyIndex == old(self.MyIndex)
 //@   ensures  [C15] @sameBase self.lastBlockTimestamp == old(self.lastBlockTimestamp)
@@ -360,6 +369,10 @@ package dbft
 
 // ---- more externs ----
 
+//@ extern Block.SetTransactions
+//@   ghost gBlockTxSet = recv
+//@ extern PreBlock.SetTransactions
+//@   ghost gPreBlockTxSet = recv
 //@ extern Config.ProcessPreBlock
 //@   ghost gPreBlockOK = gPreBlockOK + ite(result == nil, 1, 0)
 //@ extern Config.ProcessBlock
@@ -372,6 +385,10 @@ package dbft
 // A3: a freshly built payload already carries this node's index, so setting it again changes nothing.
 //@ extern ConsensusPayload.SetValidatorIndex
 //@   requires recv.ValidatorIndex() == arg0
+// C03: what a recovery message retransmits under this node's own index is the very payload it broadcast
+//@ extern RecoveryMessage.AddPayload
+//@   requires [C03] @retransmitIdentical implies(arg0.ValidatorIndex() == self.MyIndex && arg0.Type() == CommitType, arg0 == gCommit)
+//@        && implies(arg0.ValidatorIndex() == self.MyIndex && arg0.Type() == PreCommitType, arg0 == gPreCommit)
 //@ extern RecoveryMessage.GetChangeViews
 //@   ensures forall(k, 0, len(result), result[k] != nil)
 //@ extern RecoveryMessage.GetPrepareResponses
@@ -449,7 +466,7 @@ package dbft
 //@   ensures [C16,C05] @unsubscribed !self.txSubscriptionOn
 //@   ensures [C15,C05] @base self.lastBlockTimestamp == ts
 //@   ensures [C05,C07,C03,C11] @keptWithinHeight implies(view > 0, sameHeight() && unchanged(self.CommitPayloads, self.PreCommitPayloads, self.preBlockProcessed, self.blockProcessed))
-//@   ensures [C05,C04,C11] @tablesCleared forall(i, 0, NN(), self.PreparationPayloads[i] == nil && self.ChangeViewPayloads[i] == nil) && implies(view == 0, forall(i, 0, NN(), self.CommitPayloads[i] == nil && self.PreCommitPayloads[i] == nil))
+//@   ensures [C05,C04,C02,C03,C11] @tablesCleared forall(i, 0, NN(), self.PreparationPayloads[i] == nil && self.ChangeViewPayloads[i] == nil) && implies(view == 0, forall(i, 0, NN(), self.CommitPayloads[i] == nil && self.PreCommitPayloads[i] == nil))
 //@   ghost gPrep = nil
 //@   ghost gCommit = ite(view == 0, nil, gCommit)
 //@   ghost gPreCommit = ite(view == 0, nil, gPreCommit)
@@ -457,6 +474,7 @@ package dbft
 //@   requires [C03] @lock implies(view > 0, !locked() && said())
 //@   modifies Context.*, heap HeightView.*, gTipHeight, gTipHash, gPrep, gCommit, gPreCommit, gMaxOwnView, gValidators, gTimePerBlock, gMaxTimePerBlock
 //@   loop 1: invariant len(c.LastChangeViewPayloads) == NN() && len(c.ChangeViewPayloads) == NN() && unchanged(c.ChangeViewPayloads, c.Validators)
+//@   loop 1: invariant 0 <= idx && idx <= NN() && forall(j, 0, idx, implies(c.LastChangeViewPayloads[j] != nil, c.LastChangeViewPayloads[j].Type() == ChangeViewType))
 
 // C14 (arithmetic part for proposals): shifting the previous timestamp l and the clock c = a*incr + r by k = q*incr shifts the proposal timestamp max(l+incr, trunc(c)) by k.
 //@ lemma [C14] proposalTimestampShift(l, a, r, q, incr) = implies(incr >= 1 && l >= 0 && a >= 0 && q >= 0 && 0 <= r && r < incr,
@@ -503,7 +521,9 @@ package dbft
 //@   ensures wf() && slot()
 //@   loop 1: invariant len(txx) == len(c.TransactionHashes) && c.block != nil && forall(j, 0, i, txx[j] == c.Transactions[c.TransactionHashes[j]])
 //@   at call c.block.SetTransactions: assert [C02] @blockTxs len(arg0) == len(c.TransactionHashes) && forall(j, 0, len(arg0), arg0[j] == c.Transactions[c.TransactionHashes[j]])
-//@   modifies Context.block, Context.header
+//@   requires [C02] @complete complete()
+//@   ensures [C02] @complete complete()
+//@   modifies Context.block, Context.header, gBlockTxSet
 //@ func (*Context).CreatePreBlock
 //@   requires wf() && slot() && amev()
 //@   ensures result == c.preBlock
@@ -513,7 +533,9 @@ package dbft
 //@   ensures wf() && slot()
 //@   loop 1: invariant len(txx) == len(c.TransactionHashes) && c.preBlock != nil && forall(j, 0, i, txx[j] == c.Transactions[c.TransactionHashes[j]])
 //@   at call c.preBlock.SetTransactions: assert [C02] @preBlockTxs len(arg0) == len(c.TransactionHashes) && forall(j, 0, len(arg0), arg0[j] == c.Transactions[c.TransactionHashes[j]])
-//@   modifies Context.preBlock, Context.preHeader
+//@   requires [C02] @complete complete()
+//@   ensures [C02] @complete complete()
+//@   modifies Context.preBlock, Context.preHeader, gPreBlockTxSet
 //@ func (*Context).MakeHeader
 //@   requires wf() && slot()
 //@   ensures result == c.header
@@ -563,7 +585,7 @@ package dbft
 //@   ensures [C16] @emptyWaitsMax implies(gBroadcasts == old(gBroadcasts), self.Config.MaxTimePerBlock != nil && !force && self.txSubscriptionOn
 //@        && gTimerD == self.maxTimePerBlock - self.timePerBlock && gTimerH == self.BlockIndex && gTimerV == self.ViewNumber && self.ViewNumber == old(self.ViewNumber))
 //@   requires [C13] @silent notWatchOnly()
-//@   requires self.MyIndex == self.PrimaryIndex && !rsor()
+//@   requires [C03,C04] @oneProposal self.MyIndex == self.PrimaryIndex && !rsor() && gPrep == nil
 //@   wraps * unless aview()
 //@ func (*DBFT).sendChangeView
 //@   use U
@@ -582,7 +604,7 @@ package dbft
 //@   requires self.MyIndex != self.PrimaryIndex
 //@   requires [C04] @evidence hasAllTx() && gVerified != nil && (gVerified == self.block || gVerified == self.preBlock)
 //@   ensures [C11] @wf wf()
-//@   ensures [C11] @slot slot()
+//@   ensures [C11,C02,C04] @slot slot()
 //@   ensures [C04] @prep prep()
 //@   ensures forall(i, 0, NN(), implies(i != self.MyIndex, self.PreparationPayloads[i] == old(self.PreparationPayloads[i])))
 //@   ensures gBroadcasts == old(gBroadcasts) + 1
@@ -597,19 +619,21 @@ package dbft
 //@   requires [C07] @enabled amev()
 //@   requires [C04] @evidence rsor() && hasAllTx() && prepCount() >= specM(NN()) && prep()
 //@   ensures [C11] @wf wf()
-//@   ensures [C11] @slot slot()
+//@   ensures [C11,C02,C04] @slot slot()
 //@   requires [C03] @said said()
 //@   ensures [C03] @said said()
 //@   ensures [C03] @lock implies(old(gPreCommit) != nil, gPreCommit == old(gPreCommit))
 //@   ensures gBroadcasts >= old(gBroadcasts)
-//@   modifies Context.PreCommitPayloads, Context.preBlock, Context.preHeader, gBroadcasts, gLastBcast, gPreCommit, gMaxOwnView
+//@   requires [C02] @complete complete()
+//@   ensures [C02] @complete complete()
+//@   modifies Context.PreCommitPayloads, Context.preBlock, Context.preHeader, gBroadcasts, gLastBcast, gPreCommit, gMaxOwnView, gPreBlockTxSet
 //@ func (*DBFT).sendCommit
 //@   requires wf() && slot() && verc()
 //@   requires [C13] @silent notWatchOnly()
 //@   requires [C04] @evidence implies(!amev(), rsor() && hasAllTx() && prepCount() >= specM(NN()) && prep())
 //@   requires [C07] @phase implies(amev(), self.PreCommitPayloads[self.MyIndex] != nil && self.preBlockProcessed && preCommitCount() >= specM(NN()))
 //@   ensures [C11] @wf wf()
-//@   ensures [C11] @slot slot()
+//@   ensures [C11,C02,C04] @slot slot()
 //@   ensures [C02,C01] @verc verc()
 //@   requires [C03] @said said()
 //@   ensures [C03] @said said()
@@ -635,6 +659,7 @@ package dbft
 //@   modifies Context.MissingTransactions, Context.Transactions, gBroadcasts, gLastBcast, gClock, gMaxOwnView
 //@ func (*Context).makeRecoveryMessage
 //@   requires wf() && slot()
+//@   requires [C03] @said said()
 //@   ensures result != nil && (result.ValidatorIndex() == self.MyIndex || self.MyIndex < 0)
 //@   ensures result.Type() == RecoveryMessageType && result.ViewNumber() == self.ViewNumber
 //@   modifies nothing
@@ -663,7 +688,8 @@ package dbft
 //@   loop 1: invariant [C07,C02] @counts count == count(j, 0, idx, curP(j))
 //@   at call d.ProcessPreBlock: assert [C07,C02] @certificate !self.preBlockProcessed && preCommitCount() >= specM(NN()) && hasAllTx() && arg0 == self.preBlock && arg0 != nil
 //@   at call d.ProcessPreBlock: assert [C02] @verified verp()
-//@ callers [C07] Config.ProcessPreBlock : (*DBFT).checkPreCommit
+//@   at call d.ProcessPreBlock: assert [C02] @complete arg0 == self.preBlock && gPreBlockTxSet == arg0 && prop() && tip()
+//@ callers [C07,C02] Config.ProcessPreBlock : (*DBFT).checkPreCommit
 //@ writers [C07] Context.preBlockProcessed : (*DBFT).checkPreCommit, (*Context).reset
 //@ func (*DBFT).checkCommit
 //@   use U
@@ -672,6 +698,7 @@ package dbft
 //@   loop 1: invariant 0 <= count && count <= idx && idx <= NN()
 //@   loop 1: invariant [C02,C01] @counts count == count(j, 0, idx, curC(j))
 //@   at call d.ProcessBlock: assert [C05] @once !self.blockProcessed
+//@   at call d.ProcessBlock: assert [C02] @complete arg0 == self.block && gBlockTxSet == arg0
 //@   at call d.ProcessBlock: assert [C02,C01] @certificate commitCount() >= specM(NN()) && hasAllTx() && arg0 == self.header && arg0 != nil && verc() && prop() && tip()
 //@ callers [C02,C05] Config.ProcessBlock : (*DBFT).checkCommit
 //@ writers [C05] Context.blockProcessed : (*DBFT).checkCommit, (*Context).reset
@@ -757,7 +784,7 @@ package dbft
 //@   use U
 //@   requires tx != nil
 //@   ensures [C05] @quiescent implies(old(self.blockProcessed), quiet() && gBroadcasts == old(gBroadcasts))
-//@   ensures [C11] @notRequested implies(forall(j, 0, old(len(self.MissingTransactions)), old(self.MissingTransactions[j]) != tx.Hash()), ignored())
+//@   ensures [C11,C04,C02] @notRequested implies(forall(j, 0, old(len(self.MissingTransactions)), old(self.MissingTransactions[j]) != tx.Hash()), ignored())
 //@   ensures [C12] @answers implies(!old(has(self.Transactions, tx.Hash())) && has(self.Transactions, tx.Hash()) && self.ViewNumber == old(self.ViewNumber) && hasAllTx() && notWatchOnly() && !old(self.blockProcessed),
 //@        gBroadcasts > old(gBroadcasts))
 //@   ensures [C12] @answersInKind implies(!old(has(self.Transactions, tx.Hash())) && has(self.Transactions, tx.Hash()) && self.ViewNumber == old(self.ViewNumber) && hasAllTx() && notWatchOnly() && !old(self.blockProcessed) && aview(),
@@ -826,6 +853,8 @@ package dbft
 //@   ensures [C11] @repeated implies(old(self.PreCommitPayloads[msg.ValidatorIndex()]) != nil, ignored())
 //@   assume @A7 msg.ValidatorIndex() != self.MyIndex || self.PreCommitPayloads[self.MyIndex] != nil
 //@   requires [C07] @enabled amev()
+// a pre-commit that arrives when the pre-block can be built is counted only after its data verified against that pre-block
+//@   at call d.checkPreCommit: assert [C02] @arrivalVerified self.preBlock != nil && curP(msg.ValidatorIndex()) && verP(msg.ValidatorIndex())
 //@ func (*DBFT).onCommit
 //@   use U
 //@   use UNDECIDED
@@ -870,7 +899,9 @@ package dbft
 //@   ensures [C04] @filtered forall(j, 0, NN(), implies(self.PreparationPayloads[j] != nil && self.PreparationPayloads[j].Type() == PrepareResponseType, self.PreparationPayloads[j].GetPrepareResponse().PreparationHash() == msg.Hash()))
 // "it validates payloads we may have received before PrepareRequest": once it returns, no early commit (pre-commit) of the current view is left unverified.
 //@   ensures [C02,C01] @earlyCommitsVerified implies(!amev(), self.header != nil || forall(i, 0, NN(), !curC(i)))
-//@   modifies Context.PreparationPayloads, Context.CommitPayloads, Context.PreCommitPayloads, Context.header, Context.preHeader, Context.preBlock
+//@   requires [C02] @complete complete()
+//@   ensures [C02] @complete complete()
+//@   modifies Context.PreparationPayloads, Context.CommitPayloads, Context.PreCommitPayloads, Context.header, Context.preHeader, Context.preBlock, gPreBlockTxSet
 //@ func (*DBFT).verifyPreCommitPayloadsAgainstPreBlock
 //@   requires wf() && slot() && said()
 //@   ensures [C03] @said said()
@@ -878,8 +909,11 @@ package dbft
 //@   loop 1: invariant wf() && slot() && unchanged(self.PreparationPayloads, self.TransactionHashes, self.Transactions, self.ViewNumber, self.PrimaryIndex)
 //@   loop 1: invariant implies(old(self.preBlock) != nil, self.preBlock == old(self.preBlock))
 //@   ensures wf() && slot()
+//@   requires [C02] @complete complete()
+//@   ensures [C02] @complete complete()
+//@   loop 1: invariant [C02] @complete complete()
 //@   ensures implies(old(self.preBlock) != nil, self.preBlock == old(self.preBlock))
-//@   modifies Context.PreCommitPayloads, Context.preHeader, Context.preBlock
+//@   modifies Context.PreCommitPayloads, Context.preHeader, Context.preBlock, gPreBlockTxSet
 //@ func (*DBFT).verifyCommitPayloadsAgainstHeader
 //@   requires wf() && slot() && said()
 //@   ensures [C03] @said said()
